@@ -31,7 +31,8 @@ Junk == [c |-> "junk"]                     \* uninitialised / garbage memory (ma
 Live(id, k) == [c |-> "live", id |-> id, key |-> k]   \* generated nonce number id, bound to public key k
 
 GenClasses == { "ok", "seckey_other", "zero_rand", "secnonce_null", "rand_null", "pubnonce_null", "pubkey_null",
-                "pubkey_invalid", "seckey_invalid", "cache_bad" }
+                "pubkey_invalid", "seckey_invalid", "seckey_zero", "cache_bad" }
+\* "seckey_invalid": the optional seckey argument is 0xff..ff (>= n); "seckey_zero": it is the all-zero key -- both are invalid keys
 \* "seckey_other": the optional seckey argument belongs to ANOTHER key than the supplied pubkey (the API does not check that
 \* they correspond): the nonce is bound to the SUPPLIED PUBLIC KEY
 CtrClasses == { "ok", "secnonce_null", "keypair_null", "pubnonce_null", "cache_bad" }
@@ -84,7 +85,7 @@ NonceGen(o, b, k, cls) ==
             /\ rand[b] = "fresh"
             /\ last' = Label("NonceGen", << o, b, k, cls >>, 0, 1)
             /\ UNCHANGED << obj, rand, nextId >>
-       [] cls = "seckey_invalid" ->                            \* no callback: an ordinary failure
+       [] cls \in { "seckey_invalid", "seckey_zero" } ->          \* no callback: an ordinary failure
             /\ rand[b] = "fresh"
             /\ obj' = [obj EXCEPT ![o] = Zero]                 \* GenFailZero
             /\ last' = Label("NonceGen", << o, b, k, cls >>, 0, 0)
